@@ -36,7 +36,7 @@ def make_case(seed, facts, index=0, weights=None):
         "micro": rng.random() < 0.3,
         "mixed_tz": rng.random() < 0.8,
         "need_uid": rng.random() < 0.7,
-        "ts_styles": rng.choice([["space"], ["space"], ["space", "T"], ["space", "Z", "nocolon", "T"]]),
+        "ts_styles": rng.choice([["space"], ["space"], ["space", "T"], ["space", "Z", "nocolon", "T"], ["slash"], ["space", "slash"]]),
         "clock": rng.random() < 0.8,
         "env": rng.random() < 0.8,
         "hash": rng.random() < 0.8,
@@ -49,6 +49,7 @@ def make_case(seed, facts, index=0, weights=None):
         "shared_instants": rng.random() < 0.25,
         "huge": rng.random() < 0.004,
         "dust": rng.random() < 0.1,
+        "new_year_start": rng.random() < 0.08,
     }
     for flag, prob in sorted((weights or {}).items()):
         swarm[flag] = rng.random() < prob
@@ -100,6 +101,7 @@ def make_case(seed, facts, index=0, weights=None):
     if opts["asset"] and opts["asset"] not in [s["name"] for s in world["sheets"]]:
         opts["asset"] = None
     host = gen.gen_host(rng, swarm)
+    host["extra_env"] = gen.gen_extra_env(rng, facts[country])
     prestate = gen.gen_prestate(rng, opts)
     return {"property": PROP, "seed": seed, "index": index, "swarm": swarm, "world": world, "opts": opts, "host": host,
             "prestate": prestate, "readonly_inputs": rng.random() < 0.15}
@@ -130,8 +132,8 @@ def valid_case(case):
         if o.get("method"):
             return False
         years = W.local_years(case["world"])
-        if years and min(y for y, _ in case["world"]["methods"]) > years[0] - 1:
-            return False
+        if years and min(y for y, _ in case["world"]["methods"]) > years[0]:
+            return False  # the schedule must cover the (wall-clock) year of the first transaction
     return True
 
 
